@@ -105,9 +105,8 @@ def closedPrefix (a : List Char) (dA : Dump) : Bool :=
                     || (t.ty == .MacroComment && !(a.contains '\'' || a.contains '"'))
       | none => false)
 
-def C15 (a b : List Char) (dA dB dAB : Dump) : Verdict :=
-  if !closedPrefix a dA || b.head? == some BOM || dB.outcome != .ok then []   -- property does not apply
-  else
+/-- the composition clauses (no test of closedness) -/
+def C15core (a b : List Char) (dA dB dAB : Dump) : Verdict :=
     let nb := utf8Len a
     let nc := a.length
     let nl := dA.lines.length - 1
@@ -130,6 +129,17 @@ def C15 (a b : List Char) (dA dB dAB : Dump) : Verdict :=
     ++ clause "literal-buffer" (dA.lits ++ dB.lits == dAB.lits)
     ++ clause "errors" (er == dAB.errs)
     ++ clause "end-state" (dB.snap.map (·.modes) == dAB.snap.map (·.modes))
+
+def C15 (a b : List Char) (dA dB dAB : Dump) : Verdict :=
+  if !closedPrefix a dA || b.head? == some BOM || dB.outcome != .ok then []   -- property does not apply
+  else C15core a b dA dB dAB
+
+/-- closedness of `A` judged by the *reference model's* run on `A` (`dAm`), so that a change of the
+implementation cannot take a prefix out of scope by leaving residual state behind; the implementation must then
+itself end `A` in the initial configuration and compose. -/
+def C15m (a b : List Char) (dA dB dAB dAm : Dump) : Verdict :=
+  if !closedPrefix a dAm || b.head? == some BOM || dB.outcome != .ok then []
+  else clause "prefix-leaves-initial-configuration" (closedPrefix a dA) ++ C15core a b dA dB dAB
 
 end Spec
 end SasLexer
